@@ -34,6 +34,14 @@ func NewVerifConn(connID int, in []byte, router *Mux) *VerifConn {
 	return &VerifConn{c: c, Out: out}
 }
 
+// NewVerifConnWithLogger is NewVerifConn with the given logger instead of the null logger (what gldap does must
+// not depend on the level of the logger it was given).
+func NewVerifConnWithLogger(connID int, in []byte, router *Mux, logger hclog.Logger) *VerifConn {
+	v := NewVerifConn(connID, in, router)
+	v.c.logger = logger
+	return v
+}
+
 // ReadRequest is conn.readRequest: ber.ReadPacket, basicValidation, newRequest.
 func (v *VerifConn) ReadRequest(requestID int) (*Request, error) {
 	return v.c.readRequest(requestID)
